@@ -137,7 +137,7 @@
 (define set-partition! set-partition)
 
 (define (set-copy set)
-  (make-set (hash-table-copy (set-table set))
+  (make-set (hash-table-copy (set-table set) #t)
             (set-comparator set)))
 
 (define (set->list set)
